@@ -18,6 +18,7 @@ import TboxModel.C17.InvProofs
 import TboxModel.C17.SeqProofs
 import TboxModel.C17.ExecProofs
 import TboxModel.C17.Sim7
+import TboxModel.C17.ReentProofs
 namespace Tbox.C17
 
 /-! ## Layer 1 — one action, every call sequence
@@ -79,15 +80,9 @@ theorem C17_final_hook (d : Node) (cs : TL) (g : G) (s : Bool) (w : Nat) :
     · simp
   · intro h; rw [stop]; simp [h]
 
-/-- **the final hook runs exactly once per run that ends, never otherwise**: in every reachable state
-of every tree, for every action, the number of times its final hook ran since it was built / last
-reset is 1 if it is Finished or Stoped and 0 otherwise. -/
-theorem C17_final_once_per_run (t : T) (ops : List Op) (hc : Clean t = true) (hl : LeafShape t = true) :
-    AllNodes (fun d => d.finals == (if d.ended then 1 else 0)) (run t {} ops).1 = true := by
-  have h := wf_allNodes _ (reachable_wf t ops hc hl).1
-  revert h
-  generalize (run t {} ops).1 = r
-  intro h
+theorem wf_finals (r : T) (hw : WF r = true) :
+    AllNodes (fun d => d.finals == (if d.ended then 1 else 0)) r = true := by
+  have h := wf_allNodes _ hw
   have key : ∀ (P Q : Node → Bool), (∀ d, P d = true → Q d = true) →
       (∀ t, AllNodes P t = true → AllNodes Q t = true) ∧ (∀ cs, AllNodesL P cs = true → AllNodesL Q cs = true) := by
     intro P Q hPQ
@@ -105,6 +100,13 @@ theorem C17_final_once_per_run (t : T) (ops : List Op) (hc : Clean t = true) (hl
   intro d hd
   simp only [nodeOk, Bool.and_eq_true] at hd
   exact hd.1.2
+
+/-- **the final hook runs exactly once per run that ends, never otherwise**: in every reachable state
+of every tree, for every action, the number of times its final hook ran since it was built / last
+reset is 1 if it is Finished or Stoped and 0 otherwise. -/
+theorem C17_final_once_per_run (t : T) (ops : List Op) (hc : Clean t = true) (hl : LeafShape t = true) :
+    AllNodes (fun d => d.finals == (if d.ended then 1 else 0)) (run t {} ops).1 = true :=
+  wf_finals _ (reachable_wf t ops hc hl).1
 
 /-- **no restart while under way** (and none after the end without reset): `start` on an action
 that is not Idle changes nothing in the tree or the loop — no `onStart`, no child started, no
@@ -370,6 +372,89 @@ example : SerOk loopTree = true ∧ Clean loopTree = true ∧ eval loopTree = so
 example : SerOk (comp 0 (.loop .untilSucc) [leaf 1 (.func false none)]) = true ∧
     eval (comp 0 (.loop .untilSucc) [leaf 1 (.func false none)]) = none := by decide +kernel
 
+/-! ## Re-entrant control: callback scripts on the root (Reent.lean, ReentProofs.lean)
+
+`runR t {} ops`: the ops of `run`, plus `cb final|fin|blk <calls>`: attach a one-shot script to the root's
+final / finish / block callback.  The next invocation of that callback makes the calls (start, pause,
+resume, stop, reset on the root) from INSIDE the callback: the final callback as the last step of
+`Action::finish()` / `Action::stop()` of the root — in the middle of the handler, timer callback, replay or
+`start()` that finished it —, the finish / block callbacks from the loop's batch.  Any number of scripts,
+attached at any time, nested to any depth (a script's `start` may finish the root again, whose final
+callback takes the next script …).  The model follows the repaired code (patches/C17-07, C17-08). -/
+
+/-- **the tree invariant with re-entrant control**: `WF` holds in every state reached by any op sequence
+with callback scripts. -/
+theorem C17_tree_inv_reentrant (t : T) (ops : List OpR) (hc : Clean t = true) (hl : LeafShape t = true) :
+    WF (runR t {} ops).1 = true :=
+  (reachableR_wf t ops hc hl).1
+
+/-- … and with it the corollaries of layer 2, for histories with callback scripts: nothing is left under
+way below an action that ended; stop() leaves the tree quiet; no stale notification, replay or timer
+anywhere; the final hook ran exactly once iff the action ended; reset() gives back a fresh tree. -/
+theorem C17_quiescent_after_end_reentrant (t : T) (ops : List OpR) (hc : Clean t = true) (hl : LeafShape t = true) :
+    EndedQuiet (runR t {} ops).1 = true :=
+  wf_endedQuiet _ (C17_tree_inv_reentrant t ops hc hl)
+
+theorem C17_quiescent_after_stop_reentrant (t : T) (ops : List OpR) (hc : Clean t = true) (hl : LeafShape t = true) :
+    Quiet (stop (runR t {} ops).1 (runR t {} ops).2).1 = true :=
+  (stop_wf _ _ (reachableR_wf t ops hc hl).1 (reachableR_wf t ops hc hl).2).2.2
+
+theorem C17_no_stale_anywhere_reentrant (t : T) (ops : List OpR) (hc : Clean t = true) (hl : LeafShape t = true) :
+    AllNodes nodeOk (runR t {} ops).1 = true :=
+  wf_allNodes _ (C17_tree_inv_reentrant t ops hc hl)
+
+theorem C17_final_once_per_run_reentrant (t : T) (ops : List OpR) (hc : Clean t = true) (hl : LeafShape t = true) :
+    AllNodes (fun d => d.finals == (if d.ended then 1 else 0)) (runR t {} ops).1 = true :=
+  wf_finals _ (C17_tree_inv_reentrant t ops hc hl)
+
+theorem C17_reset_fresh_reentrant (t : T) (ops : List OpR) (hc : Clean t = true) (hl : LeafShape t = true) :
+    Clean (reset (runR t {} ops).1 (runR t {} ops).2).1 = true ∧ WF (reset (runR t {} ops).1 (runR t {} ops).2).1 = true := by
+  have a := reset_wf _ _ (reachableR_wf t ops hc hl).1 (reachableR_wf t ops hc hl).2
+  exact ⟨a.2.2, a.1⟩
+
+/-- a Running composite with nothing to wait for: nothing under way, queued or armed in its subtree -/
+def stuckRoot (t : T) : Bool :=
+  t.data.st == .running && !t.data.isLeaf && (allTasks t []).isEmpty && (allTimers t []).isEmpty &&
+  AllNodesL (fun d => !d.underway) t.children
+
+def noTail : Cfg := { fixTail := false }
+def noLoop : Cfg := { fixLoop := false }
+
+/-- **defect repaired by patches/C17-07** (`Action::start()` is not re-entrant): an empty Sequence finishes
+inside its own start(); its final callback resets it; back in start(), `if (last_state == state_)` holds
+again (Idle = Idle) and the code as found sets the reset action Running: it stays Running for ever
+(nothing queued, armed or under way), and start() on it answers true and does nothing. -/
+theorem C17_start_tail_after_reset_counterexample :
+    let r := runR (comp 0 (.seq .all) []) { cfg := noTail } [.cb .final [.reset], .op (.calls [.start]), .op .pass, .op (.calls [.start]), .op .pass]
+    stuckRoot r.1 = true ∧ rootFins r = [] := by decide +kernel
+
+theorem C17_start_tail_repaired :
+    let r := runR (comp 0 (.seq .all) []) {} [.cb .final [.reset], .op (.calls [.start]), .op .pass, .op (.calls [.start]), .op .pass, .op .pass]
+    rootSt r = .finished ∧ rootFins r = [(true, .finished)] := by decide +kernel
+
+/-- **defect repaired by patches/C17-08** (the replay loop of ParallelAction is not re-entrant): two results
+are held back while the any-succ parallel is paused; after resume the replay feeds the first one in, the
+parallel finishes, its final callback resets and restarts it — and the code as found goes on with the
+second result, which belongs to the PREVIOUS run: the new run (three DummyActions nobody completed) is
+finished by it at once. -/
+theorem C17_parallel_replay_into_next_run_counterexample :
+    let r := runR (comp 0 (.par .anySucc) [leaf 1 .dummy, leaf 2 .dummy, leaf 3 .dummy]) { cfg := noLoop }
+      [.cb .final [.reset, .start], .op (.calls [.start]), .op (.calls [.emitFin 1 true, .emitFin 2 true, .pause]), .op .pass, .op (.calls [.resume]), .op .pass]
+    rootSt r = .finished := by decide +kernel
+
+theorem C17_parallel_replay_repaired :
+    let r := runR (comp 0 (.par .anySucc) [leaf 1 .dummy, leaf 2 .dummy, leaf 3 .dummy]) {}
+      [.cb .final [.reset, .start], .op (.calls [.start]), .op (.calls [.emitFin 1 true, .emitFin 2 true, .pause]), .op .pass, .op (.calls [.resume]), .op .pass]
+    rootSt r = .running ∧ AllNodesL (fun d => d.st == .running) r.1.children = true := by decide +kernel
+
+/-- the order the seeded change C17-3 reversed: in `ParallelAction::onChildFinished` the children are stopped
+BEFORE `finish()`, so that nothing touches the tree after the final callback: a final callback that
+resets and restarts the parallel leaves the children of the new run running. -/
+theorem C17_parallel_restart_from_final_callback :
+    let r := runR (comp 0 (.par .anySucc) [leaf 1 (.func true none), leaf 2 .dummy]) {}
+      [.cb .final [.reset, .start], .op (.calls [.start])]
+    rootSt r = .running ∧ (r.1.children.get? 1).map (fun c => c.data.st) = some .running := by decide +kernel
+
 /-! ## ActionExecutor (action_executor.cpp; model Exec.lean, repaired code of patches/C17-06)
 
 `Exec.xrun {} ops` is the state after ANY list of executor operations: append of an action (dummy /
@@ -416,6 +501,21 @@ example : (Exec.xrun {} [.append .dummy 2, .append .dummy 2, .append .dummy 0, .
 --   * timeouts (`tmo ≠ none`) and DummyAction leaves are outside the evaluator's domain (the evaluator has
 --     no notion of time; needed: `evalT` returning the finishing time along with the result).
 --   The driver still compares every generated control-free run (all composites, all modes) with `eval`.
+-- OPEN re-entrant control below the root: call-outs made while frames of ANCESTORS are on the stack — the body of a
+--   FunctionAction, the callbacks of a DummyAction, the final callback of a nested composite that ends inside a
+--   start() / stop() chain — calling start/stop/pause/resume/reset on the root.  The functions of Model.lean are
+--   local (a call returns the new subtree to its caller, which holds a copy of its own node); a faithful model
+--   needs resumable continuations: every function that can have a call-out beneath it (start / stop / finish
+--   families, startChildren / stopAll loops, startThisAction's `curr_action_ = action`) returns, beside its result,
+--   "interrupted at path p with the rest of the frames", and the root call is applied to the snapshot rebuilt from
+--   the frames.  The root's own callbacks (final: synchronous; finish / block: from the loop) are closed:
+--   `C17_tree_inv_reentrant` and corollaries.
+-- OPEN "a Running composite waits for something" (`stuckRoot` never holds in the repaired configuration): monitored
+--   by the driver on every state (`running-composite-waits-for-nothing`), proved on the instances above only; as an
+--   invariant it needs, beside `WF`, "a Running serial composite has a current child under way, or a notification /
+--   replay queued in its subtree, or its timeout armed" (and the analogue for ParallelAction) through every handler.
+-- OPEN `stepR` with no script attached is `step` (the driver runs `step` itself in that case): needs the frame lemma
+--   "no function of Model.lean changes `g.scr`".
 -- OPEN C17_reset_bisim: after `reset` every later op sequence produces the same observable trace as on
 --   the freshly built tree (equal up to run ids and the dead fields).  Proved: `Clean` + `WF` of the
 --   reset tree (`C17_reset_fresh`); the driver's differential runs contain reset-then-rerun histories.
